@@ -46,11 +46,16 @@ def _perm(draw, n):
 # 1. index model on matrices
 # ------------------------------------------------------------------------------------------
 @st.composite
-def _mat_case(draw, nmax=5, budget=64, hi=4):
+def _mat_case(draw, nmax=5, budget=64, hi=4, shuffle=False):
     n = draw(st.integers(1, nmax))
     dr = draw(gen.dims(n=n, budget=budget, hi=hi))
     square = draw(st.booleans())
     dc = list(dr) if square else draw(gen.dims(n=n, budget=budget, hi=hi))
+    if shuffle:
+        # the size budget pushes the non-trivial factors to the front; put them at drawn positions
+        order = list(draw(st.permutations(list(range(n)))))
+        dr = [dr[i] for i in order]
+        dc = [dc[i] for i in order] if not square else list(dr)
     perm = draw(_perm(n))
     inv = draw(st.booleans())
     row_only = draw(st.booleans())
@@ -463,9 +468,9 @@ def nt_omitted(case):
 
 SUBCHECKS = [
     SubCheck("index_model", check_index_model, _mat_case, nt_mat, quick=12000, thorough=400000),
-    # larger systems than the dense sweep above (up to 9 subsystems, local dimension up to 7, totals up to 768): the
+    # larger systems than the dense sweep above (up to 12 subsystems at drawn positions, local dimension up to 7, totals up to 512): the
     # property is not bounded in size, so a slip that needs many factors or a large local dimension must be reachable
-    SubCheck("index_model_large", check_index_model, lambda: _mat_case(nmax=9, budget=768, hi=7), nt_mat, quick=600, thorough=12000),
+    SubCheck("index_model_large", check_index_model, lambda: _mat_case(nmax=12, budget=512, hi=7, shuffle=True), nt_mat, quick=900, thorough=18000),
     SubCheck("vector", check_vector, _vec_case, nt_vec, quick=4000, thorough=100000),
     SubCheck("kron_law", check_kron, _kron_case, lambda c: nt_mat({**c, "inv": c["inv"]}), quick=3000, thorough=60000),
     SubCheck("roundtrip", check_roundtrip, _mat_case, nt_mat, quick=3000, thorough=60000),
